@@ -151,6 +151,9 @@ impl Parser {
     }
 
     fn goback(&mut self, prev: (usize, bool)) {
+        // comments after the restored position will be collected again
+        self.comments.retain(|comment| comment.pos < prev.0);
+        self.lead_comments.retain(|comment| comment.pos < prev.0);
         self.scan.goback(prev);
         self.current = self.scan_next().unwrap();
     }
@@ -214,8 +217,10 @@ impl Parser {
                 self.lead_comments.clear();
                 let (line1, _) = self.scan.line_info(pos);
                 if line0 == line1 {
+                    let comment = Rc::new(ast::Comment { pos, text });
+                    self.comments.push(comment.clone());
                     self.next()?;
-                    Some(Rc::new(ast::Comment { pos, text }))
+                    Some(comment)
                 } else {
                     self.goback(start);
                     self.next()?;
